@@ -160,6 +160,10 @@ UNITS = [
      [("DEFAULT_CACHE", "default_cache"), "DFACC_CURRENT", "DDLIST_DIRTY", "FILE_END_DIRTY", "DFREF_NONE"],
      [("HDFMAGIC_BYTES", "((unsigned char *)HDFMAGIC)", "MAGICLEN"), ("LIBVER_BYTES", "ro_verbytes()", "LIBVER_LEN")]),
     ("Sdid", '#include "hdf_priv.h"\n#include "hfile_priv.h"\n', ["SDSTYPE", "DIMTYPE", "CDFTYPE", "H4_MAX_NC_OPEN", "MAX_NC_OPEN"], []),
+    # C15: the attribute names hdf_read_ndgs (mfhdf/src/hdfsds.c) gives to the strings and annotations of an old-style data set (bytes of the C strings)
+    ("NdgAttrs", '#include "hdf.h"\n#include "mfhdf.h"\n', ["DFTAG_SDL", "DFTAG_SDU", "DFTAG_SDF", "DFTAG_SDC", "DFTAG_DIL", "DFTAG_DIA"],
+     [("NAME_%s" % n, "((unsigned char *)_HDF_%s)" % m, "strlen(_HDF_%s)" % m)
+      for n, m in (("REMARKS", "Remarks"), ("ANNO_LABEL", "AnnoLabel"), ("LONG_NAME", "LongName"), ("UNITS", "Units"), ("FORMAT", "Format"), ("COORDSYS", "CoordSys"))]),
     ("Bitvect", '#include "hdf_priv.h"\n#include "%s/bitvect.c"\n' % HS,
      ["BV_DEFAULT_BITS", "BV_CHUNK_SIZE", "BV_BASE_BITS"],
      [("bv_first_zero", "bv_first_zero", "256"), ("bv_bit_value", "bv_bit_value", "8"), ("bv_bit_mask", "bv_bit_mask", "9")]),
